@@ -488,6 +488,25 @@ theorem report_eq_acc (g : Geo) (hh : 0 < g.h) (hw : 0 < g.w) (ops : List Op)
   congr 1
   simp [Rep, init, get_zeros]
 
+/-- instance: the same array added twice with another one in between counts twice — `2a + b`,
+whatever happens to the caller's ndarray object in the meantime (arrays are values). -/
+theorem readd_same_array (g : Geo) (hh : 0 < g.h) (hw : 0 < g.w) (a b : Grid)
+    (ha : Wf g a) (hb : Wf g b) (ha0 : ∀ i j, 0 ≤ a.get i j) (hb0 : ∀ i j, 0 ≤ b.get i j)
+    (i j : Nat) (hi : i < g.rows) (hj : j < g.cols) :
+    (report g (run g (init g) [.addArray a, .addArray b, .addArray a])).get i j =
+      2 * a.get i j + b.get i j := by
+  rw [report_eq_acc g hh hw _ _ i j hi hj]
+  · have h1 := (shapeOk_iff g a).mpr ha
+    have h2 := (shapeOk_iff g b).mpr hb
+    simp only [acc, List.foldl_cons, List.foldl_nil, accStep, h1, h2, if_true]
+    ring
+  · intro op hop
+    simp only [List.mem_cons, List.mem_nil_iff, or_false] at hop
+    rcases hop with rfl | rfl | rfl
+    · exact ha0
+    · exact hb0
+    · exact ha0
+
 /-- the array returned by a read has the detector's shape in every state satisfying the invariant -/
 theorem report_wf (g : Geo) (s : St) (hs : Good g s) : Wf g (report g s) := by
   unfold report readArr
